@@ -438,6 +438,28 @@ example : (((reactorReload wLive cfgOld none).1.loopTop 1).drain 1).2 = [] := by
 example : (((Sess.init true [1]).step (.add (rt 1 1 1 1) false)).1.drain.1.step
     (.reload [rt 1 1 1 1] [rt 1 1 2 1])).1.drain.2 = [] := by decide
 
+/-- **Two reloads, the second finding the session down** (F106 / F109), on sessions: whatever state the RIB was in
+    (`s0`: queues, a generator in flight, API routes in the cache), after reload 1 (`n1`, parsed and queued; the
+    session is then reset for the re-establishment), reload 2 (`n2`, same families; `reconfigure` with the link
+    `old ++ n1.routes` that `decidePeer` hands it, see `reload_keeps_unapplied_link`) and the next establishment, the
+    new session, drained, gives an empty peer table exactly: the routes of `n2`; nothing of what `old` or `n1`
+    configured and `n2` does not; and every other prefix as the cache had it before the two reloads (API routes). -/
+theorem reload_twice_second_while_down (s0 : Sess) (hcw : CacheWF s0.rib) (hok0 : FamOK s0.rib) (n1 n2 : Nbr) (old : List Route)
+    (h1 : RoutesOK n1) (h2 : RoutesOK n2) (hf1 : s0.rib.families = n1.fams) (hf2 : n1.fams = n2.fams) :
+    let s1 := ((s0.run (insertOps n1)).1.step .lost).1
+    let s2 : Sess := { (parseSess (some s1) n2) with rib := (parseSess (some s1) n2).rib.replaceReload (old ++ n1.plain) n2.plain }
+    let s3 := (s2.step (.established [] n2.plain)).1
+    Good s3 [] ∧ ∀ m, AList.lookup m (applyEvs [] s3.drain.2) = deltaView s0.rib.cacheView (old ++ n1.plain) n2.plain m :=
+  reload_chain_down_core s0 hcw hok0 n1 n2 old h1 h2 hf1 hf2
+
+/-- ... and with the link the unrepaired code used (`n1.routes` alone) the statement is false: a route of `old` that
+    `n1` removed is still in the cache and `deltaView` against `n1.routes` keeps it. -/
+example :
+    let r1 : Route := { nlri := 1, attr := 1, nh := 1, fam := 1 }
+    let r2 : Route := { nlri := 2, attr := 1, nh := 1, fam := 1 }
+    deltaView (fun m => if m = 1 ∨ m = 2 then some (1, 1) else none) [r1] [r1] 2 = some (1, 1) ∧
+    deltaView (fun m => if m = 1 ∨ m = 2 then some (1, 1) else none) ([r1, r2] ++ [r1]) [r1] 2 = none := by decide
+
 /-! ### a reload which finds a definition that never reached the RIB (finding F106) -/
 
 /-- What the definition a peer holds last (`_neighbor` when one is pending, `neighbor` otherwise) has not
